@@ -1,24 +1,45 @@
 /-
   Handshake: model of `CommHandler._start / _devinfo_get / _drop_all_frames / _stop` (comm.py)
-  against an adversarial link.  The link is a script of responses, one per info request the
-  client sends (exhausted script: a default response); blocking calls are charged in virtual
-  time (tenths of a second) with the timeouts and retry counters of `Gen.Comm`.
+  against an adversarial link, of the calls built on it (`CommHandler.connect / disconnect /
+  stream_start / stream_stop`, `NxscopeHandler.connect / stream_start / stream_stop / disconnect`)
+  and of the receive thread (`ThreadCommon._thread_loop` around `CommHandler._recv_thread`).
 
-  What the link may do per request (`Resp`): answer correctly, stay silent (also: answer with
-  bytes that contain no decodable frame), answer with a well-formed frame of another kind, or
-  answer with a frame of the right kind whose payload is too short to unpack (CPython raises
-  `struct.error`).  Unsolicited frames are not part of this model (the draining loops only count
-  empty polls; see DESIGN.md section 5/C10).
+  The link is a script of responses, one per request the client WAITS an answer for (exhausted
+  script: a default response); blocking calls are charged in virtual time (tenths of a second)
+  with the timeouts and retry counters of `Gen.Comm`.
+
+  What the link may do per awaited request (`Resp`): answer correctly (info requests: the
+  description; set / start / stop requests: ACK 0), stay silent, answer with a well-formed frame
+  of another kind, answer with a frame of the right kind whose payload is too short to unpack
+  (CPython raises `struct.error`), answer with an ACK frame carrying a non-zero code (NACK),
+  answer with bytes without a start byte (`noise`: dropped, like silence), or answer with
+  `garbage`: bytes that contain a decodable header announcing a long frame (the reference
+  device's blob `13 37 55 01 ff 00 55`: header `55 01 ff 00` = 65281 bytes, id 0) — the receive
+  path then takes everything the device sends afterwards for the body of that frame, i.e. the
+  link is dead for the rest of the session: the device still does what the script says, but its
+  answers are `swallowed` (valid as long as fewer than 65281 bytes follow in the session); the
+  next `_start` empties the reassembly buffer (F21) and lifts it (`unswallow`).
+  Unsolicited frames are not part of this model (the draining loops only count empty polls; see
+  DESIGN.md section 5/C10): sustained noise is covered by the read bound of the receive-thread
+  body (`Props/C10.lean`), not by the scripts.
 -/
 import NxsModel.Gen.Comm
 import NxsModel.Info
+import NxsModel.Reasm
+import NxsModel.Worker
 namespace Nxs
 namespace Handshake
 open Gen.Comm
 
 inductive Resp where
-  | ok | silent | wrong | short
+  | ok | silent | wrong | short | garbage | nack | noise
+  | swallowed (r : Resp)      -- the device does `r`, but nothing gets through the poisoned reassembly buffer
   deriving DecidableEq, Repr
+
+/-- what the device really does -/
+def Resp.unswallow : Resp → Resp
+  | .swallowed r => r.unswallow
+  | r => r
 
 /-- the device description the link answers with when it answers correctly -/
 structure DevDesc where
@@ -49,6 +70,15 @@ def St.next (s : St) : Resp × St :=
   | [] => (s.dflt, s)
   | r :: rest => (r, { s with script := rest })
 
+/-- the reassembly buffer now starts with a header announcing a frame that never completes:
+    whatever the device does from now on is swallowed -/
+def St.poison (s : St) (time : Nat) : St :=
+  { s with time := time, script := s.script.map .swallowed, dflt := .swallowed s.dflt }
+
+/-- `_prev_read = b""` at `_start` (F21): the link is as the device drives it again -/
+def St.unpoison (s : St) : St :=
+  { s with script := s.script.map Resp.unswallow, dflt := s.dflt.unswallow }
+
 /-- `_drop_all_frames` on empty queues: 4 + 4 empty polls -/
 def dropAll (s : St) : St :=
   { s with time := s.time + drainPolls * drainPollTime + drainStreamPolls * drainStreamPollTime }
@@ -58,7 +88,9 @@ inductive Got where
   | answer | nothing | raise (e : Err)
   deriving DecidableEq, Repr
 
-/-- send a request and wait for its response (`_nxslib_cmninfo` / `_nxslib_chinfo`) -/
+/-- send a request and wait for its response (`_nxslib_cmninfo` / `_nxslib_chinfo`).  During the
+    handshake the client has no device yet, so an ACK frame (also a NACK) is dropped by the receive
+    thread: nothing arrives, the wait times out. -/
 def request (s : St) (r : Req) (timeout : Nat) : Got × St :=
   let s := { s with sent := s.sent ++ [r] }
   let (resp, s) := s.next
@@ -67,6 +99,10 @@ def request (s : St) (r : Req) (timeout : Nat) : Got × St :=
   | .silent => (.nothing, { s with time := s.time + timeout })
   | .wrong => (.nothing, s)
   | .short => (.raise .structError, s)
+  | .nack => (.nothing, { s with time := s.time + timeout })
+  | .noise => (.nothing, { s with time := s.time + timeout })
+  | .swallowed _ => (.nothing, { s with time := s.time + timeout })
+  | .garbage => (.nothing, s.poison (s.time + timeout))
 
 /-- the `while chan is None` loop for channel `i` with `k` attempts left -/
 def chinfoLoop (s : St) (i : Nat) : Nat → Got × St
@@ -135,5 +171,267 @@ def bound (chmax : Nat) : Nat :=
   let drain := drainPolls * drainPollTime + drainStreamPolls * drainStreamPollTime
   drain + connectAttempts * (cmninfoTimeout + drain + chmax * chinfoAttempts * chinfoTimeout)
 
+/-! ### sessions: several calls on one handler object, faults at any request
+
+`Sess` is the state of one `CommHandler` (fields `started … intf`) and, for the high-level
+calls, of the `NxscopeHandler` that owns it (`connected … streamThr`).  `_dev is not None` and
+`_started` coincide between calls (both set at the end of a successful `_start`, both cleared
+by `_stop`), so one flag stands for both. -/
+
+/-- the stream thread's body is `stream_data()`, i.e. `_get_stream_frame()` with its default
+    timeout of 1.0 s (`comm.py`; pinned by `Gen.PinsC10.comm_CommHandler__get_stream_frame`, not
+    yet extracted by the translator): `thread_stop()` waits at most that long for it -/
+def streamPollTimeout : Nat := 10
+
+/-- what the client wrote, in order: the handshake's requests and the set / start requests (stop is `Req.stop`) -/
+inductive Sent where
+  | info (r : Req) | start | enable | div
+  deriving DecidableEq, Repr
+
+structure Sess where
+  st : St                     -- `st.sent`: the requests of the last `_start` only; the whole log is `log`
+  dev : DevDesc
+  log : List Sent := []
+  started : Bool := false
+  recvThr : Bool := false
+  intf : Bool := false
+  connected : Bool := false
+  streamStarted : Bool := false
+  streamThr : Bool := false
+  deriving Repr
+
+def Sess.fresh (dev : DevDesc) (script : List Resp) (dflt : Resp) : Sess :=
+  { st := { script := script, dflt := dflt }, dev := dev }
+
+/-- number of library threads alive -/
+def Sess.threads (x : Sess) : Nat := (if x.recvThr then 1 else 0) + (if x.streamThr then 1 else 0)
+
+inductive AckRes where
+  | ok | fail | raise (e : Err)
+  deriving DecidableEq, Repr
+
+/-- write a set / start / stop request and wait for its ACK (`_get_ack`): without a device, or with
+    a device that does not support ACK, success at once and nothing is awaited -/
+def ackReq (x : Sess) (r : Sent) (timeout : Nat) : AckRes × Sess :=
+  let x := { x with log := x.log ++ [r] }
+  if x.started && Info.ackSupported x.dev.flags then
+    let (resp, st) := x.st.next
+    match resp with
+    | .ok => (.ok, { x with st := st })
+    | .silent => (.fail, { x with st := { st with time := st.time + timeout } })
+    | .noise => (.fail, { x with st := { st with time := st.time + timeout } })
+    | .swallowed _ => (.fail, { x with st := { st with time := st.time + timeout } })
+    | .garbage => (.fail, { x with st := st.poison (st.time + timeout) })
+    | .nack => (.fail, { x with st := st })              -- ACK frame with a non-zero code
+    | .wrong => (.fail, { x with st := st })             -- some other frame: `frame_ack_decode` → None
+    | .short => (.raise .structError, { x with st := st }) -- ACK frame of the wrong size (outside the fault classes)
+  else (.ok, x)
+
+/-- the link state the handshake loop of `_start` begins with: reassembly buffer emptied (F21), stop
+    request written (not awaited: no device yet), queues drained -/
+def startState (st : St) : St := dropAll { st.unpoison with sent := [.stop] }
+
+/-- `CommHandler.connect()` (`_start`): no-op when started; else interface, stop request (not
+    awaited: no device yet), drain, empty reassembly buffer, receive thread, handshake -/
+def commConnect (x : Sess) : Outcome × Sess :=
+  if x.started then (.connected x.dev.chmax x.dev.flags x.dev.rxpadding, x)
+  else
+    match connectLoop x.dev (startState x.st) connectAttempts with
+    | (.connected a b c, s) =>
+      (.connected a b c, { x with st := s, log := x.log ++ s.sent.map .info, started := true, recvThr := true, intf := true })
+    | (.raised e, s) =>
+      (.raised e, { x with st := s, log := x.log ++ s.sent.map .info, recvThr := !startCleansUp, intf := !startCleansUp })
+
+/-- `CommHandler.disconnect()` (`_stop`): acts only when started -/
+def commDisconnect (x : Sess) : Sess :=
+  if x.started then { x with st := dropAll x.st, recvThr := false, intf := false, started := false }
+  else x
+
+/-- an ACK wait whose answer is not looked at by the caller: only an exception matters -/
+def ackStep (x : Sess) (r : Sent) (timeout : Nat) : Option Err × Sess :=
+  match ackReq x r timeout with
+  | (.raise e, y) => (some e, y)
+  | (_, y) => (none, y)
+
+/-- `CommHandler.channels_write()`: assert a device; nothing for a device without channels; divider
+    request if supported, then enable request; each waits for its ACK, the answers are not looked at here -/
+def channelsWrite (x : Sess) : Option Err × Sess :=
+  if !x.started then (some .assertion, x)
+  else if x.dev.chmax = 0 then (none, x)
+  else if Info.divSupported x.dev.flags then
+    match ackStep x .div ackTimeoutDiv with
+    | (some e, y) => (some e, y)
+    | (none, y) => ackStep y .enable ackTimeoutEnable
+  else ackStep x .enable ackTimeoutEnable
+
+/-- `NxscopeHandler.stream_stop()`: stop request, then `thread_stop()` of the stream thread, which
+    waits `w ≤ streamPollTimeout` for the thread's current `stream_data()` poll (the adversary's choice) -/
+def hlStreamStop (x : Sess) (w : Nat) : Option Err × Sess :=
+  if x.streamStarted then
+    match ackStep x (.info .stop) ackTimeoutStop with
+    | (some e, y) => (some e, y)
+    | (none, y) =>
+      let wait := if y.streamThr then min w streamPollTimeout else 0
+      (none, { y with st := { y.st with time := y.st.time + wait }, streamThr := false, streamStarted := false })
+  else (none, x)
+
+/-- `NxscopeHandler.stream_start()` -/
+def hlStreamStart (x : Sess) : Option Err × Sess :=
+  if x.streamStarted then (none, x)
+  else
+    match channelsWrite x with
+    | (some e, y) => (some e, y)
+    | (none, y) =>
+      match ackStep y .start ackTimeoutStart with
+      | (some e, z) => (some e, z)
+      | (none, z) => (none, { z with streamThr := true, streamStarted := true })
+
+/-- `NxscopeHandler.connect()` -/
+def hlConnect (x : Sess) : Outcome × Sess :=
+  if x.connected then (.connected x.dev.chmax x.dev.flags x.dev.rxpadding, x)
+  else
+    match commConnect x with
+    | (.connected a b c, y) => (.connected a b c, { y with connected := true })
+    | (.raised e, y) => (.raised e, y)
+
+/-- `NxscopeHandler.disconnect()`: stream stop, disable-all written now, `CommHandler.disconnect()` -/
+def hlDisconnect (x : Sess) (w : Nat) : Option Err × Sess :=
+  if x.connected then
+    match hlStreamStop x w with
+    | (some e, y) => (some e, y)
+    | (none, y) =>
+      match channelsWrite y with
+      | (some e, z) => (some e, z)
+      | (none, z) => (none, { commDisconnect z with connected := false })
+  else (none, x)
+
+/-- time bound of the high-level disconnect: stop ACK, stream-thread poll, divider ACK, enable ACK, drain -/
+def hlDisconnectBound : Nat :=
+  ackTimeoutStop + streamPollTimeout + ackTimeoutDiv + ackTimeoutEnable +
+    (drainPolls * drainPollTime + drainStreamPolls * drainStreamPollTime)
+
+inductive Level where
+  | low | high
+  deriving DecidableEq, Repr
+
+inductive Op where
+  | connect | streamStart | streamStop | disconnect | pause
+  deriving DecidableEq, Repr
+
+inductive OpRes where
+  | ok | ack | noack
+  | connected (chmax flags rxp : Nat)
+  | raised (e : Err)
+  deriving DecidableEq, Repr
+
+def pauseTime : Nat := 3
+
+def ofOutcome : Outcome → OpRes
+  | .connected a b c => .connected a b c
+  | .raised e => .raised e
+
+def ofErr : Option Err → OpRes
+  | none => .ok
+  | some e => .raised e
+
+def ofAck : AckRes → OpRes
+  | .ok => .ack
+  | .fail => .noack
+  | .raise e => .raised e
+
+/-- one public call; `w` = how long the stream thread's current poll still lasts when it is joined -/
+def step (lvl : Level) (x : Sess) (op : Op) (w : Nat) : OpRes × Sess :=
+  match op with
+  | .pause => (.ok, { x with st := { x.st with time := x.st.time + pauseTime } })
+  | .connect =>
+    match lvl with
+    | .low => let (o, y) := commConnect x; (ofOutcome o, y)
+    | .high => let (o, y) := hlConnect x; (ofOutcome o, y)
+  | .disconnect =>
+    match lvl with
+    | .low => (.ok, commDisconnect x)
+    | .high => let (e, y) := hlDisconnect x w; (ofErr e, y)
+  | .streamStart =>
+    match lvl with
+    | .low => let (a, y) := ackReq x .start ackTimeoutStart; (ofAck a, y)
+    | .high => let (e, y) := hlStreamStart x; (ofErr e, y)
+  | .streamStop =>
+    match lvl with
+    | .low => let (a, y) := ackReq x (.info .stop) ackTimeoutStop; (ofAck a, y)
+    | .high => let (e, y) := hlStreamStop x w; (ofErr e, y)
+
+/-- a whole session: the calls in order, each with the adversary's choice of the stream-thread wait -/
+def run (lvl : Level) (x : Sess) : List (Op × Nat) → List OpRes × Sess
+  | [] => ([], x)
+  | (op, w) :: rest =>
+    let (r, y) := step lvl x op w
+    let (rs, z) := run lvl y rest
+    (r :: rs, z)
+
+/-- time bound of one call -/
+def opBound (lvl : Level) (chmax : Nat) : Op → Nat
+  | .pause => pauseTime
+  | .connect => bound chmax
+  | .disconnect =>
+    match lvl with
+    | .low => drainPolls * drainPollTime + drainStreamPolls * drainStreamPollTime
+    | .high => hlDisconnectBound
+  | .streamStart =>
+    match lvl with
+    | .low => ackTimeoutStart
+    | .high => ackTimeoutDiv + ackTimeoutEnable + ackTimeoutStart
+  | .streamStop =>
+    match lvl with
+    | .low => ackTimeoutStop
+    | .high => ackTimeoutStop + streamPollTimeout
+
 end Handshake
+
+/-! ### the receive thread
+
+`CommHandler.__init__` builds `ThreadCommon(self._recv_thread, name="recv")`: no init and no final
+callback.  The thread executes the generated `_thread_loop` program (`Gen.Thread.threadLoop`, with
+the instruction semantics of `Worker.execW`); its target call is one invocation of the
+receive-thread body `Reasm.readFrame` against what the link delivers from then on. -/
+namespace RecvThread
+open Worker
+
+def cfg : Cfg := ⟨false, false⟩
+
+structure T where
+  w : Worker.Worker
+  buf : Bytes             -- `_prev_read`
+  rs : List Bytes         -- results of the coming `intf.read()` calls (exhausted: empty reads)
+  calls : Nat := 0        -- invocations of the body so far
+  exited : Bool := false
+
+/-- the shared state as the worker sees it: only the stop flag matters to the loop program -/
+def shared (flag : Bool) : State := ⟨.idle, flag, none, [], true, false, false⟩
+
+/-- one instruction of the receive thread while the stop flag has the value `flag` -/
+def step (c : Codec) (fuel : Nat) (flag : Bool) (t : T) : T :=
+  if t.exited then t
+  else
+    match loopProg[t.w.pc]? with
+    | none => { t with exited := true }
+    | some i =>
+      match execW cfg i (shared flag) t.w with
+      | .next ev _ w' =>
+        if ev = Ev.target then
+          let r := Reasm.readFrame c fuel t.buf t.rs
+          { t with w := w', buf := r.2.1, rs := r.2.2, calls := t.calls + 1 }
+        else { t with w := w' }
+      | .exit => { t with exited := true }
+      | .raise => { t with exited := true }
+
+/-- `n` instructions -/
+def run (c : Codec) (fuel : Nat) (flag : Bool) : Nat → T → T
+  | 0, t => t
+  | n + 1, t => run c fuel flag n (step c fuel flag t)
+
+/-- the thread at instruction `pc` of the loop program -/
+def at_ (pc : Nat) (buf : Bytes) (rs : List Bytes) : T :=
+  { w := { Worker.fresh with st := .running, pc := pc }, buf := buf, rs := rs }
+
+end RecvThread
 end Nxs
